@@ -45,21 +45,24 @@ theorem scanCols_known (fx : Bool) (n : Nat) (cols : List TI) (i : Nat) (buf : B
           · cases fx
             · intro s hs; simp at hs; subst hs; exact ⟨rfl, rfl⟩
             · intro s hs; simp at hs
-          · cases col with
-            | tuple k =>
+          · split
+            · rename_i es
               simp only [width] at h
-              simp only []
               split
               · omega
-              · have ht := tupleCell_known fx k
+              · have ht := tupleCell_known fx es.length
                 split
                 · exact ih _ _ (by omega)
                 · intro s hs; cases hs
                 · rename_i s' hs'
                   intro s hs; cases hs
                   exact ht _ s' hs'
-            | other =>
-              simp only [width] at h
+            · rename_i hnt
+              have hw : width col = 1 := by
+                cases col with
+                | tuple es => exact absurd rfl (hnt es)
+                | _ => rfl
+              rw [hw] at h
               exact ih _ _ (by omega)
 
 theorem scanLoop_known (fx : Bool) (cols : List TI) (n : Nat) (h : (cols.map width).sum ≤ n)
@@ -200,5 +203,76 @@ theorem parsed_meta_ok (fx : Bool) (proto : Nat) (resp : Bool) (flags op : Nat) 
   unfold parseFrame at h
   rw [h] at this
   exact this
+
+/-! ### Iter.RowData / goType -/
+
+theorem goType_safe (t : TI) (h1 : badMapKey t = false) (h2 : nativeCollection t = false) :
+    (goType t).isCrash = false := by
+  fun_induction goType t <;> simp_all [badMapKey, nativeCollection, GT.isCrash]
+  rename_i k v c1 c2 hk hv hc
+  cases k with
+  | simple t =>
+    simp at h1
+    simp only [goType] at hk
+    split at hk
+    · simp_all
+    · split at hk
+      · simp_all
+      · split at hk
+        · simp_all
+        · split at hk <;> simp_all
+  | _ => simp at h1
+
+theorem goTypes_safe (es : List TI) (n : Nat) (h : ∀ t ∈ es, badMapKey t = false ∧ nativeCollection t = false) :
+    (goTypes es n).isCrash = false := by
+  induction es generalizing n with
+  | nil => simp [goTypes, RD.isCrash]
+  | cons t r ih =>
+    unfold goTypes
+    have ht := goType_safe t (h t (by simp)).1 (h t (by simp)).2
+    split
+    · exact ih _ (fun x hx => h x (by simp [hx]))
+    · simp [RD.isCrash]
+    · rename_i hc; rw [hc] at ht; simp [GT.isCrash] at ht
+    · rename_i hc; rw [hc] at ht; simp [GT.isCrash] at ht
+
+/-- a column is fine for MapScan / SliceMap when (each element of a tuple column, or the column type
+itself) has no map with a non-comparable key -/
+def colOk : TI → Bool
+  | .tuple es => es.all (fun t => !badMapKey t && !nativeCollection t)
+  | t => !badMapKey t && !nativeCollection t
+
+theorem rowData_safe (cols : List TI) (n : Nat) (h : ∀ c ∈ cols, colOk c = true) : (rowData cols n).isCrash = false := by
+  induction cols generalizing n with
+  | nil => simp [rowData, RD.isCrash]
+  | cons c r ih =>
+    have hc := h c (by simp)
+    have hr : ∀ x ∈ r, colOk x = true := fun x hx => h x (by simp [hx])
+    have generic : ∀ t : TI, badMapKey t = false → nativeCollection t = false →
+        (match goType t with
+          | .ok _ => rowData r (n + 1)
+          | .err => .err
+          | .crashMapOf => .crashMapOf
+          | .crashAssert => .crashAssert).isCrash = false := by
+      intro t h1 h2
+      have ht := goType_safe t h1 h2
+      split
+      · exact ih _ hr
+      · simp [RD.isCrash]
+      · rename_i hx; rw [hx] at ht; simp [GT.isCrash] at ht
+      · rename_i hx; rw [hx] at ht; simp [GT.isCrash] at ht
+    cases c with
+    | tuple es =>
+      simp only [rowData]
+      simp only [colOk, List.all_eq_true] at hc
+      have := goTypes_safe es n (fun t ht => by have := hc t ht; simp at this; exact this)
+      split
+      · exact ih _ hr
+      · rename_i o hne
+        exact this
+    | simple t => simp only [rowData]; simp [colOk] at hc; exact generic _ hc.1 hc.2
+    | list e => simp only [rowData]; simp [colOk] at hc; exact generic _ hc.1 hc.2
+    | map k v => simp only [rowData]; simp [colOk] at hc; exact generic _ hc.1 hc.2
+    | udt fs => simp only [rowData]; simp [colOk] at hc; exact generic _ hc.1 hc.2
 
 end C05Rows
